@@ -12,6 +12,7 @@ import (
 	"verifcheck/internal/core"
 	"verifcheck/internal/flow"
 	"verifcheck/internal/locks"
+	"verifcheck/internal/ssaq"
 )
 
 // calleeName returns the rendered static callee of a call ("" if none).
@@ -224,4 +225,185 @@ func newHelperParams(a *locks.Analysis) map[types.Object]bool {
 		}
 	}
 	return out
+}
+
+// onlyReachedFrom: the function named name did not exist on the reference tree
+// and every call chain that reaches it starts in the reference-tree function
+// owner (a piece of owner that was moved into a helper keeps owner's
+// exemptions).
+func onlyReachedFrom(ctx *Ctx, name, owner string) bool {
+	q := ssaq.For(ctx.Prog)
+	f := q.Func(name)
+	if f == nil || !ssaq.IsNew(f) {
+		return false
+	}
+	owners, ok := q.Attributed(f)
+	return ok && len(owners) == 1 && owners[0] == owner
+}
+
+// unitHolding returns u when pred matches a node of u, otherwise the helper
+// that did not exist on the reference tree, called (transitively, through
+// other such helpers) from u, in which pred matches: code that was moved out
+// of u into a helper is looked for where it went. nil when there is none.
+func unitHolding(a *locks.Analysis, u *flow.Unit, pred func(ast.Node) bool) *flow.Unit {
+	seen := map[*flow.Unit]bool{}
+	var visit func(v *flow.Unit, depth int) *flow.Unit
+	visit = func(v *flow.Unit, depth int) *flow.Unit {
+		if v == nil || seen[v] || depth > 3 {
+			return nil
+		}
+		seen[v] = true
+		if len(v.Find(pred)) > 0 {
+			return v
+		}
+		var found *flow.Unit
+		info := v.Pkg.TypesInfo
+		ast.Inspect(v.Body, func(n ast.Node) bool {
+			if found != nil {
+				return false
+			}
+			call, ok := n.(*ast.CallExpr)
+			if !ok {
+				return true
+			}
+			fn, _ := typeutil.Callee(info, call).(*types.Func)
+			if fn == nil || !core.IsNewFunc(fn) {
+				return true
+			}
+			for _, w := range a.Eng.Units {
+				if w.Obj == fn {
+					if r := visit(w, depth+1); r != nil {
+						found = r
+					}
+				}
+			}
+			return true
+		})
+		return found
+	}
+	return visit(u, 0)
+}
+
+// canonExpr renders an expression for use in a construct key without the
+// names of variables: a variable that is assigned exactly once in the unit (or
+// an enclosing one) is replaced by the expression assigned to it, any other
+// variable (receiver, parameter, reassigned local) by its type in parentheses;
+// struct fields keep their (reference) names.
+func canonExpr(u *flow.Unit, e ast.Expr, depth int) string {
+	info := u.Pkg.TypesInfo
+	short := func(t types.Type) string {
+		return types.TypeString(t, func(p *types.Package) string { return "" })
+	}
+	switch x := ast.Unparen(e).(type) {
+	case *ast.Ident:
+		v, ok := info.ObjectOf(x).(*types.Var)
+		if !ok || v.IsField() {
+			return x.Name
+		}
+		if depth < 3 {
+			var rhs ast.Expr
+			n := 0
+			for p := u; p != nil; p = p.Parent {
+				ast.Inspect(p.Body, func(m ast.Node) bool {
+					switch as := m.(type) {
+					case *ast.AssignStmt:
+						for i, l := range as.Lhs {
+							if id, ok := l.(*ast.Ident); ok && info.ObjectOf(id) == types.Object(v) {
+								n++
+								if len(as.Lhs) == len(as.Rhs) {
+									rhs = as.Rhs[i]
+								} else {
+									rhs = nil
+									n++
+								}
+							}
+						}
+					case *ast.IncDecStmt:
+						if id, ok := as.X.(*ast.Ident); ok && info.ObjectOf(id) == types.Object(v) {
+							n += 2
+						}
+					case *ast.RangeStmt:
+						for _, l := range []ast.Expr{as.Key, as.Value} {
+							if id, ok := l.(*ast.Ident); ok && info.ObjectOf(id) == types.Object(v) {
+								n += 2
+							}
+						}
+					case *ast.UnaryExpr:
+						if as.Op == token.AND {
+							if id, ok := ast.Unparen(as.X).(*ast.Ident); ok && info.ObjectOf(id) == types.Object(v) {
+								n += 2 // address taken
+							}
+						}
+					}
+					return true
+				})
+			}
+			if n == 1 && rhs != nil {
+				return canonExpr(u, rhs, depth+1)
+			}
+		}
+		return "(" + short(v.Type()) + ")"
+	case *ast.SelectorExpr:
+		if sel, ok := info.Selections[x]; ok && sel.Kind() == types.FieldVal {
+			if fv, ok := sel.Obj().(*types.Var); ok {
+				return canonExpr(u, x.X, depth) + "." + core.FieldName(fv)
+			}
+		}
+		return types.ExprString(x)
+	case *ast.StarExpr:
+		return "*" + canonExpr(u, x.X, depth)
+	case *ast.CallExpr:
+		name := calleeName(info, x)
+		if name == "" {
+			name = types.ExprString(x.Fun)
+		}
+		var args []string
+		for _, a := range x.Args {
+			args = append(args, canonExpr(u, a, depth))
+		}
+		if sel, ok := ast.Unparen(x.Fun).(*ast.SelectorExpr); ok {
+			if s, ok := info.Selections[sel]; ok && s.Kind() == types.MethodVal {
+				args = append([]string{canonExpr(u, sel.X, depth)}, args...)
+			}
+		}
+		out := name + "("
+		for i, a := range args {
+			if i > 0 {
+				out += ", "
+			}
+			out += a
+		}
+		return out + ")"
+	}
+	return types.ExprString(e)
+}
+
+// paramByRefName returns the parameter of u that had the given name on the
+// reference tree (by position, so that renaming a parameter does not lose it).
+func paramByRefName(u *flow.Unit, refName string) types.Object {
+	if u == nil || u.Type == nil || u.Type.Params == nil {
+		return nil
+	}
+	var names []string
+	off := 0
+	if u.Obj != nil {
+		names = core.ParamRefNames(u.Obj)
+		if sig, ok := u.Obj.Type().(*types.Signature); ok && sig.Recv() != nil {
+			off = 1
+		}
+	}
+	i := 0
+	for _, fl := range u.Type.Params.List {
+		for _, nm := range fl.Names {
+			ref := nm.Name
+			if i+off < len(names) {
+				ref = names[i+off]
+			}
+			if ref == refName {
+				return u.Pkg.TypesInfo.Defs[nm]
+			}
+			i++
+		}
+	}
+	return nil
 }
